@@ -2,6 +2,8 @@
 // every index-valued argument is expressed in the view's own reported index space, the model is positional (a shifted zero-based twin), and at every
 // state: element addresses position-wise (C01 oracle), iterator/elements() laws (C02), +view, assignment, == against the twin semantics.
 #define VM_REBASE_OPS 1
+#define VM_CALL_MAXARGS 4
+#define VM_CATEGORIES 1
 #include "../engine/iter_laws.hpp"
 
 using namespace vm;
@@ -32,7 +34,8 @@ static void run_root(Root& root, int const* data, idx N, std::vector<idx> const&
 		if(!h.empty()) {
 			Op const& o = h.back(); std::vector<idx> want;
 			if(o.k == REINDEXED || o.k == BLOCKED || o.k == STENCILED) { want = {o.a}; }
-			if(o.k == REINDEXEDN) { want = {o.a, o.b}; if(o.nargs >= 3) { want.push_back(o.c); } }
+			if(o.k == REINDEXEDN) { want = {o.a, o.b}; if(o.nargs >= 3) { want.push_back(o.c); } if(o.nargs >= 4) { want.push_back(o.d); } }
+			if(o.k == STENCILEDN) { for(int j = 0; j < o.nargs; ++j) { want.push_back(o.args[j].a); } }
 			for(std::size_t j = 0; j < want.size() && j < m.d.size(); ++j) {
 				if(m.d[j].size > 0 && m.d[j].first != want[j]) { report(m, h, "index-base", "dimension " + std::to_string(j) + " starts at " + std::to_string(m.d[j].first) + " after " + op_str(o) + ", expected " + std::to_string(want[j])); return false; }
 			}
@@ -120,7 +123,7 @@ static std::vector<RootSpec> roots() {
 	for(idx f0 : {idx{-1}, idx{0}, idx{2}}) { for(idx f1 : {idx{-1}, idx{0}, idx{2}}) { if(f0 == 0 && f1 == 0) { continue; } r.push_back({{2, 3}, {f0, f1}, !(f0 == f1 || f0 == 0 || f1 == 0) && !(f0 == -1 && f1 == 2)}); } }
 	r.push_back({{3, 2}, {1, -2}, false}); r.push_back({{4, 2}, {2, 2}, true});
 	r.push_back({{2, 3, 2}, {1, 0, -1}, false}); r.push_back({{2, 2, 3}, {-1, 2, 1}, true}); r.push_back({{1, 2, 3}, {2, 2, 2}, true});
-	r.push_back({{2, 1, 2, 3}, {1, -1, 0, 2}, true});
+	r.push_back({{2, 1, 2, 3}, {1, -1, 0, 2}, false}); r.push_back({{2, 2, 3, 2}, {-1, 2, 0, 1}, true});
 	return r;
 }
 
@@ -142,7 +145,7 @@ int main(int argc, char** argv) {
 	mc::Args args(argc, argv);
 	bool thorough = args.get("tier", "quick") == "thorough";
 	Config cfg; cfg.maxdepth = static_cast<int>(args.geti("depth", thorough ? 3 : 2)); cfg.adopt_firsts = true;
-	cfg.menu0.call_full = true; cfg.menu0.call_maxargs = 2; cfg.menu0.rebase_ops = true;
+	cfg.menu0.call_full = true; cfg.menu0.call_maxargs = 4; cfg.menu0.rebase_ops = true;
 	cfg.menu.call_full = false; cfg.menu.call_maxargs = 2; cfg.menu.rebase_ops = true;
 	long shard = args.geti("shard", 0), nshards = args.geti("nshards", 1);
 	mc::set_deadline(static_cast<double>(args.geti("deadline", 3000)));
